@@ -9,6 +9,7 @@
 -/
 import GoldilocksVerif.Lemmas.NttObj
 import GoldilocksVerif.Lemmas.BridgeNttExtend
+import GoldilocksVerif.Lemmas.BridgeNttHist
 
 namespace GoldilocksVerif.C19
 open GoldilocksVerif.Model.Ntt
@@ -113,5 +114,96 @@ theorem C19_generated_extendPol_ignores_cache (maxDomainSize extension : Nat) (o
   exact a1.trans a2.symm
 
 end generated
+
+/-! ### HISTORIES on the generated model (Lemmas/BridgeNttHist.lean)
+  `GCall` is one call of the TRANSLATED `NTT` / `INTT` / `extendPol` (block numbers of the caller's buffers, log2 of the sizes,
+  column count, phase / block settings; no caller scratch buffer), `GCall.run fuel (hp, self)` runs it on the heap and the object
+  state, `runG` threads a list of calls, `GCall.toCall hp` is the hand model's `Call` with the same arguments and the CURRENT
+  contents of the blocks as buffers.  `GInv o0 n0 U sz (hp, self)` — "(hp, self) represents a hand-model object whose tables are
+  those of the constructed object `o0` and whose cache is absent or valid; the object's blocks exist and are distinct; the caller's
+  blocks `U` (below the original heap size `n0`, not the NULL block) are not the object's and have the sizes `sz`".
+  `GCall.ok`: the shapes covered (sizes within the object's domain and ≤ 2^30, ≥ 1 column, destination large enough, every
+  `nphase`, every `nblock`; fuel ≥ 64, and > ncols for size 1). -/
+section generated_history
+open GoldilocksVerif.BridgeNtt Gen.NttGen GoldilocksVerif.NttSpec Finset
+
+/-- the invariant holds right after the TRANSLATED constructor, the caller's blocks being all blocks that existed before -/
+theorem C19_generated_constructed_state (fuel : Nat) (hf : 64 ≤ fuel) (hp : Heap) (hpos : 0 < hp.size) (self0 : NTT_Goldilocks)
+    (m : BitVec 64) (thr : BitVec 32) (e : Nat) (hm0 : m ≠ 0#64) (o0 : Obj) (hobj : mkObj m.toNat e = some o0) :
+    ∃ st, NTT_ctor fuel hp self0 m thr (e : Int) = some st ∧
+      GInv o0 hp.size (fun c => 0 < c ∧ c < hp.size) (fun c => (hp.block c).size) st ∧
+      ∀ c, c < hp.size → st.1.block c = hp.block c :=
+  ctor_inv fuel hf hp hpos self0 m thr e hm0 o0 hobj
+
+/-- **one call after ANY history** (any state satisfying the invariant): the translated call returns; its destination block
+    holds EXACTLY (bit for bit) what the hand model returns for the same arguments and buffer contents on the FRESHLY constructed
+    object `o0`; the caller's other blocks are unchanged; the invariant holds again (tables unchanged, cache absent or valid) -/
+theorem C19_generated_call_after_history (m e : Nat) (o0 : Obj) (hobj : mkObj m e = some o0) (he : e ≤ 1)
+    (fuel : Nat) (hf : 64 ≤ fuel) (n0 : Nat) (U : Nat → Prop) (sz : Nat → Nat)
+    (st : Heap × NTT_Goldilocks) (hinv : GInv o0 n0 U sz st) (c : GCall) (hok : c.ok m fuel U sz) :
+    ∃ st' out src, c.run fuel st = some st' ∧ ((c.toCall st.1).run o0).2 = .ok (out, src) ∧ st'.1.block c.dst = out ∧
+      (∀ b, U b → b ≠ c.dst → st'.1.block b = st.1.block b) ∧ GInv o0 n0 U sz st' :=
+  gcall_step m e o0 hobj he fuel hf n0 U sz st hinv c hok
+
+/-- **C19 on the generated model**: every history of valid calls returns and ends in a state satisfying the invariant — so
+    (`C19_generated_call_after_history`) the k-th call of every history delivers what the fresh object delivers -/
+theorem C19_generated_history (m e : Nat) (o0 : Obj) (hobj : mkObj m e = some o0) (he : e ≤ 1)
+    (fuel : Nat) (hf : 64 ≤ fuel) (n0 : Nat) (U : Nat → Prop) (sz : Nat → Nat) (cs : List GCall)
+    (st : Heap × NTT_Goldilocks) (hinv : GInv o0 n0 U sz st) (hok : ∀ c, c ∈ cs → c.ok m fuel U sz) :
+    ∃ st', runG fuel st cs = some st' ∧ GInv o0 n0 U sz st' :=
+  runG_inv m e o0 hobj he fuel hf n0 U sz cs st hinv hok
+
+/-- end to end: the translated constructor on any heap, then ANY history of valid calls on the caller's blocks, then one more
+    call: everything returns and the last call's destination block holds the fresh-object result of the hand model -/
+theorem C19_generated_history_from_constructor (fuel : Nat) (hf : 64 ≤ fuel) (hp : Heap) (hpos : 0 < hp.size)
+    (self0 : NTT_Goldilocks) (m : BitVec 64) (thr : BitVec 32) (e : Nat) (he : e ≤ 1) (hm0 : m ≠ 0#64) (o0 : Obj)
+    (hobj : mkObj m.toNat e = some o0) (cs : List GCall) (c : GCall)
+    (hok : ∀ c', c' ∈ c :: cs → c'.ok m.toNat fuel (fun b => 0 < b ∧ b < hp.size) (fun b => (hp.block b).size)) :
+    ∃ st0 st st' out src, NTT_ctor fuel hp self0 m thr (e : Int) = some st0 ∧ runG fuel st0 cs = some st ∧
+      c.run fuel st = some st' ∧ ((c.toCall st.1).run o0).2 = .ok (out, src) ∧ st'.1.block c.dst = out := by
+  obtain ⟨st0, hc, hinv0, _⟩ := ctor_inv fuel hf hp hpos self0 m thr e hm0 o0 hobj
+  obtain ⟨st, hr, hinv⟩ := runG_inv m.toNat e o0 hobj he fuel hf hp.size _ _ cs st0 hinv0
+    (fun c' hc' => hok c' (List.mem_cons_of_mem _ hc'))
+  obtain ⟨st', out, src, h1, h2, h3, _, _⟩ := gcall_step m.toNat e o0 hobj he fuel hf hp.size _ _ st hinv c
+    (hok c List.mem_cons_self)
+  exact ⟨st0, st, st', out, src, hc, hr, h1, h2, h3⟩
+
+/-- **the property after any history**: after ANY history of valid calls, a translated forward transform delivers the DFT of every
+    column of the block that is its source at that moment (each call's result is the property-level result, whatever was called
+    before) -/
+theorem C19_generated_transform_after_history (m e : Nat) (o0 : Obj) (hobj : mkObj m e = some o0) (he : e ≤ 1)
+    (fuel : Nat) (hf : 64 ≤ fuel) (n0 : Nat) (U : Nat → Prop) (sz : Nat → Nat) (cs : List GCall)
+    (st0 : Heap × NTT_Goldilocks) (hinv : GInv o0 n0 U sz st0) (hcs : ∀ c, c ∈ cs → c.ok m fuel U sz)
+    (D Sx d nc : Nat) (nphase nblock : BitVec 64) (hok : (GCall.ntt D Sx d nc nphase nblock).ok m fuel U sz)
+    (hsD : sz D = 2 ^ d * nc) (hsS : sz Sx = 2 ^ d * nc) :
+    ∃ st st', runG fuel st0 cs = some st ∧ (GCall.ntt D Sx d nc nphase nblock).run fuel st = some st' ∧
+      ∀ k c, k < 2 ^ d → c < nc →
+        den ((st'.1.block D).getD (k * nc + c) 0#64)
+          = ∑ j ∈ range (2 ^ d), den ((st.1.block Sx).getD (j * nc + c) 0#64) * omega d ^ (j * k) := by
+  obtain ⟨st, hr, hinv'⟩ := runG_inv m e o0 hobj he fuel hf n0 U sz cs st0 hinv hcs
+  obtain ⟨st', out, src, h1, h2, h3, _, _⟩ := gcall_step m e o0 hobj he fuel hf n0 U sz st hinv' _ hok
+  obtain ⟨uD, uS, hd30, hdm, hnc, hbound, hszD, hf1⟩ := hok
+  obtain ⟨_, _, _, zD⟩ := hinv'.user D uD
+  obtain ⟨_, _, _, zS⟩ := hinv'.user Sx uS
+  have hm : m ≠ 0 := by have := Nat.two_pow_pos d; omega
+  have hO := mkObj_ok m e o0 hm he hobj
+  have hdl : d ≤ log2 m := (Nat.le_log2 hm).mpr hdm
+  obtain ⟨out', eo, _, hdft⟩ := ntt_forward o0 _ hO (if D = Sx then DstMode.same else DstMode.other) (st.1.block D) (st.1.block Sx)
+    d nc nphase.toNat nblock.toNat hdl hnc (by
+      by_cases h : D = Sx
+      · subst h; simp; omega
+      · simp [h]; omega)
+  simp only [GCall.toCall, Call.run] at h2
+  rw [eo] at h2
+  injection h2 with h2
+  injection h2 with h2 _
+  refine ⟨st, st', hr, h1, ?_⟩
+  intro k c hk hc
+  have := hdft k c hk hc
+  simp only [GCall.dst] at h3
+  rw [h3, ← h2]
+  exact this
+
+end generated_history
 
 end GoldilocksVerif.C19
